@@ -316,6 +316,107 @@ fn concurrent(ch: &mut Choices, case: &mut Case) -> Result<(), String> {
     Ok(())
 }
 
+// ---- threads hammering date-keyed computations on colliding years --------------------------
+
+/// Several threads evaluate, at the same time and for hundreds of rounds, expressions whose
+/// answer depends on a per-year computation (Easter, ISO weeks, leap days, embedded holidays),
+/// each thread in its own year; the years are spaced by a multiple of a power of two (or of 100 /
+/// 400), so that they collide in any direct-mapped or modulo-indexed memo shared by the threads.
+/// Every answer must equal the one a fresh thread gives on a fresh value.
+fn hammer(ch: &mut Choices, case: &mut Case) -> Result<(), String> {
+    const EXPRS: [&str; 8] = [
+        "easter",
+        "easter -2 days-easter +1 day 10:00-18:00",
+        "24/7; easter off",
+        "easter-Dec 31",
+        "week 53; week 1 Mo unknown",
+        "Feb 29; Mo[5] 10:00-12:00",
+        "PH off; Mo-Fr 09:00-17:00",
+        "Jan 1-easter -1 day",
+    ];
+    let threads = 2 + ch.draw(7) as usize;
+    let stride = ch.pick(&[64i32, 64, 128, 256, 32, 16, 512, 100, 400, 19, 28]);
+    let base = 1960 + ch.int(0, 90) as i32;
+    let same_expr = ch.chance(50).then(|| ch.pick(&EXPRS));
+    let rounds = 150 + 50 * ch.draw(4) as usize;
+    let france = Country::FR.holidays();
+    struct Job {
+        text: &'static str,
+        year: i32,
+        queries: Vec<(Op, NaiveDateTime)>,
+    }
+    let mut jobs: Vec<Job> = Vec::new();
+    for i in 0..threads {
+        let year = (base + stride * ch.int(0, 6) as i32 + ch.int(0, 1) as i32).min(9990);
+        let text = same_expr.unwrap_or_else(|| ch.pick(&EXPRS));
+        let e = crate::model::easter(year);
+        let mut queries = Vec::new();
+        for _ in 0..4 {
+            let date = match ch.draw(4) {
+                0 => e + Duration::days(ch.int(-9, 9)),
+                1 => NaiveDate::from_ymd_opt(year, 1, 1).unwrap() + Duration::days(ch.int(0, 9)),
+                2 => NaiveDate::from_ymd_opt(year, 12, 31).unwrap() - Duration::days(ch.int(0, 9)),
+                _ => NaiveDate::from_ymd_opt(year, 1, 1).unwrap() + Duration::days(ch.int(0, 364)),
+            };
+            queries.push((ch.pick(&[Op::State, Op::NextChange, Op::Schedule, Op::NextChange]), date.and_hms_opt(ch.draw(24), 0, 0).unwrap()));
+        }
+        let _ = i;
+        jobs.push(Job { text, year, queries });
+    }
+    case.key = format!("{} threads x {rounds} rounds, years {:?}, expressions {:?}", threads, jobs.iter().map(|j| j.year).collect::<Vec<_>>(), jobs.iter().map(|j| j.text).collect::<Vec<_>>());
+    let build = |text: &str| AnyOh::Plain(OpeningHours::parse(text).unwrap().with_context(Context::default().with_holidays(france.clone())));
+    // reference: every query on a fresh value in a fresh thread, nothing else running
+    let reference: Vec<Vec<String>> = jobs
+        .iter()
+        .map(|j| {
+            j.queries
+                .iter()
+                .map(|(op, t)| std::thread::scope(|s| s.spawn(|| answer(&[build(j.text)], &Query { oh: 0, op: *op, t: *t })).join().expect("reference thread")))
+                .collect()
+        })
+        .collect();
+    // one shared value per distinct expression
+    let shared: Vec<AnyOh> = jobs.iter().map(|j| build(j.text)).collect();
+    let barrier = Barrier::new(threads);
+    let failures: Vec<Option<String>> = std::thread::scope(|scope| {
+        let handles: Vec<_> = jobs
+            .iter()
+            .enumerate()
+            .map(|(i, job)| {
+                let (shared, reference, barrier) = (&shared, &reference, &barrier);
+                scope.spawn(move || {
+                    barrier.wait();
+                    for round in 0..rounds {
+                        for (k, (op, t)) in job.queries.iter().enumerate() {
+                            let got = answer(shared, &Query { oh: i, op: *op, t: *t });
+                            if got != reference[i][k] {
+                                return Some(format!(
+                                    "`{}` {op:?} at {t} answered {got:?} on thread {i} in round {round}, while {} other threads evaluate other years; a fresh thread alone answers {:?}",
+                                    job.text,
+                                    reference.len() - 1,
+                                    reference[i][k]
+                                ));
+                            }
+                        }
+                    }
+                    None
+                })
+            })
+            .collect();
+        handles.into_iter().map(|h| h.join().expect("hammer thread panicked")).collect()
+    });
+    if let Some(m) = failures.into_iter().flatten().next() {
+        return Err(m);
+    }
+    case.units = (threads * rounds * 4) as u64;
+    let years: std::collections::BTreeSet<i32> = jobs.iter().map(|j| j.year).collect();
+    case.nontrivial = years.len() >= 2;
+    if [64, 128, 256, 32, 16, 512].contains(&stride) {
+        case.label("years_spaced_by_a_power_of_two");
+    }
+    Ok(())
+}
+
 // ---- first use of the lazily initialised tables --------------------------------------------
 
 /// The five first-use operations; each returns a digest string.
@@ -555,6 +656,15 @@ pub fn property() -> Property {
                 cases_quick: 1_500,
                 cases_thorough: 40_000,
                 max_choices: 1050,
+            },
+            SubCheck {
+                name: "hammer",
+                rule: "2-8 threads released together, each evaluating (state, next_change, schedule_at; 4 queries x 150-300 rounds) one of 8 expressions whose answer depends on a per-year computation (Easter, ISO weeks, leap days, embedded holidays) in its own year; the years are spaced by multiples of 16..512, 100, 400, 19 or 28 so that they collide in a direct-mapped or modulo-indexed memo shared between threads; every answer must equal that of a fresh thread alone on a fresh value; non-trivial = at least two different years",
+                f: hammer,
+                text_f: None,
+                cases_quick: 192,
+                cases_thorough: 4_000,
+                max_choices: 120,
             },
             SubCheck {
                 name: "first_use_text",
